@@ -253,3 +253,695 @@ Section ReaderProofs.
     rewrite skipn_app. rewrite skipn_all2 by lia. replace (length P + 3 - length P)%nat with 3%nat by lia. reflexivity.
   Qed.
 End ReaderProofs.
+
+(* ================================================================== facts about py_int *)
+Lemma rstrip_head c r : exists x, rstrip (c :: r) = [] /\ py_space c = true \/ rstrip (c :: r) = c :: x.
+Proof.
+  cbn [rstrip]. destruct (rstrip r) as [|y r'].
+  - destruct (py_space c); [exists []; left; auto|exists []; right; reflexivity].
+  - exists (y :: r'). right. reflexivity.
+Qed.
+
+(* a field whose first character is neither white space, a sign nor a digit is not an integer *)
+Lemma py_int_head c r :
+  py_space c = false -> N.eqb c 45 = false -> N.eqb c 43 = false -> digit_val c = None -> py_int (c :: r) = None.
+Proof.
+  intros Hsp H45 H43 Hd. unfold py_int. cbn [lstrip]. rewrite Hsp.
+  destruct (rstrip_head c r) as (x & [[_ Hc]|E]); [congruence|]. rewrite E, H45, H43.
+  cbn [digits_of]. rewrite Hd. rewrite andb_false_r. reflexivity.
+Qed.
+
+Lemma py_int_py_type kind : py_int (py_prefix ++ kind) = None.
+Proof. apply py_int_head; reflexivity. Qed.
+
+Lemma py_int_minus_one : py_int minus_one = Some (-1)%Z.
+Proof. reflexivity. Qed.
+
+(* ================================================================== str.splitlines *)
+Definition no_break (t : text) : Prop := Forall (fun c => is_linebreak c = false) t.
+
+Lemma splitlines_line b rest : no_break b -> splitlines (b ++ 10 :: rest) = b :: splitlines rest.
+Proof.
+  induction b as [|c b IH]; intros Hb; cbn [app splitlines].
+  - change (is_linebreak 10) with true. cbv iota. destruct rest as [|x r']; [reflexivity|]. reflexivity.
+  - inversion Hb as [|? ? Hc Hb']; subst. rewrite Hc, (IH Hb'). reflexivity.
+Qed.
+
+Lemma splitlines_lines bodies :
+  Forall no_break bodies -> splitlines (concat (map (fun b => b ++ [10]) bodies)) = bodies.
+Proof.
+  induction bodies as [|b bs IH]; intros H; [reflexivity|].
+  inversion H as [|? ? Hb Hbs]; subst. cbn [map concat]. rewrite <- app_assoc. cbn [app].
+  rewrite splitlines_line by exact Hb. rewrite IH by exact Hbs. reflexivity.
+Qed.
+
+(* ================================================================== dict *)
+Lemma lookup_set_same k v d : lookup k (dict_set k v d) = Some v.
+Proof.
+  induction d as [|[k' v'] d IH]; cbn [dict_set lookup].
+  - rewrite text_eqb_refl. reflexivity.
+  - destruct (text_eqb k k') eqn:E; cbn [lookup]; rewrite E; [reflexivity|exact IH].
+Qed.
+
+Lemma lookup_set_other k k' v d : k <> k' -> lookup k (dict_set k' v d) = lookup k d.
+Proof.
+  intros Hne. induction d as [|[k2 v2] d IH]; cbn [dict_set lookup].
+  - apply text_eqb_neq in Hne. rewrite Hne. reflexivity.
+  - destruct (text_eqb k' k2) eqn:E; cbn [lookup].
+    + apply text_eqb_eq in E. subst k2. apply text_eqb_neq in Hne. rewrite Hne. reflexivity.
+    + destruct (text_eqb k k2); [reflexivity|exact IH].
+Qed.
+
+Lemma lookup_none_notin k (d : dict) : ~ In k (map fst d) -> lookup k d = None.
+Proof.
+  induction d as [|[k' v'] d IH]; intros H; cbn [lookup]; [reflexivity|].
+  destruct (text_eqb k k') eqn:E.
+  - apply text_eqb_eq in E. exfalso. apply H. left. symmetry. exact E.
+  - apply IH. intros Hin. apply H. right. exact Hin.
+Qed.
+
+Lemma lookup_in_nodup k v (d : dict) : NoDup (map fst d) -> In (k, v) d -> lookup k d = Some v.
+Proof.
+  induction d as [|[k' v'] d IH]; intros Hnd Hin; [contradiction|].
+  cbn [map fst] in Hnd. inversion Hnd as [|? ? Hnotin Hnd']; subst. cbn [lookup].
+  destruct Hin as [E|Hin].
+  - inversion E; subst. rewrite text_eqb_refl. reflexivity.
+  - destruct (text_eqb k k') eqn:E.
+    + apply text_eqb_eq in E. subst k'. exfalso. apply Hnotin. change k with (fst (k, v)). apply in_map, Hin.
+    + apply IH; assumption.
+Qed.
+
+Lemma lookup_some_in k v (d : dict) : lookup k d = Some v -> In (k, v) d.
+Proof.
+  induction d as [|[k' v'] d IH]; cbn [lookup]; [discriminate|].
+  destruct (text_eqb k k') eqn:E.
+  - apply text_eqb_eq in E. subst k'. intros H. inversion H; subst. left. reflexivity.
+  - intros H. right. apply IH, H.
+Qed.
+
+Lemma dict_set_fresh k v (d : dict) : ~ In k (map fst d) -> dict_set k v d = d ++ [(k, v)].
+Proof.
+  induction d as [|[k' v'] d IH]; intros H; cbn [dict_set app]; [reflexivity|].
+  destruct (text_eqb k k') eqn:E.
+  - apply text_eqb_eq in E. exfalso. apply H. left. symmetry. exact E.
+  - f_equal. apply IH. intros Hin. apply H. right. exact Hin.
+Qed.
+
+Lemma dict_update_nil d : dict_update d [] = d.
+Proof. reflexivity. Qed.
+
+(* setting pairwise distinct fresh keys one after the other appends them in order *)
+Lemma fold_set_fresh (es : list (text * (text * text))) : forall d,
+  NoDup (map fst es) -> (forall k, In k (map fst es) -> ~ In k (map fst d)) ->
+  fold_left (fun acc kv => dict_set (fst kv) (snd kv) acc) es d = d ++ es.
+Proof.
+  induction es as [|[k v] es IH]; intros d Hnd Hfresh; cbn [fold_left]; [symmetry; apply app_nil_r|].
+  cbn [map fst] in Hnd. inversion Hnd as [|? ? Hk Hnd']; subst. cbn [fst snd].
+  rewrite dict_set_fresh by (apply Hfresh; left; reflexivity).
+  rewrite IH; [rewrite <- app_assoc; reflexivity|exact Hnd'|].
+  intros k' Hin. rewrite map_app, in_app_iff. intros [H|[H|[]]].
+  - apply (Hfresh k'); [right; exact Hin|exact H].
+  - cbn in H. subst k'. contradiction.
+Qed.
+
+(* ================================================================== _parseInventory *)
+Section InventoryProofs.
+  Variable pl : text -> outcome columns.
+  Hypothesis pl_total : total_line pl.
+  Variable base : text.
+
+  Definition is_py (c : columns) : bool := starts_with py_prefix (c_typ c).
+
+  (* what one line does to the map / to the reports *)
+  Definition line_step (result : dict) (line : text) : dict :=
+    match pl line with
+    | Ok c => if is_py c then dict_set (c_name c) (base, c_loc c) result else result
+    | Raise _ => result
+    end.
+  Definition line_reports (line : text) : list report :=
+    match pl line with
+    | Ok _ => []
+    | Raise _ => [RLine line base]
+    end.
+
+  Lemma parse_lines_eq lines : forall result reps,
+    parse_lines pl base lines result reps
+    = Ok (fold_left line_step lines result, reps ++ flat_map line_reports lines).
+  Proof.
+    induction lines as [|l ls IH]; intros result reps; cbn [parse_lines fold_left flat_map].
+    - rewrite app_nil_r. reflexivity.
+    - unfold line_step at 2, line_reports at 1.
+      destruct (pl_total l) as [(c & E)|E]; rewrite E.
+      + fold (is_py c). destruct (is_py c); rewrite IH; reflexivity.
+      + rewrite IH, <- app_assoc. reflexivity.
+  Qed.
+
+  (* the last usable line for a name decides *)
+  Fixpoint last_def (n : text) (lines : list text) : option (text * text) :=
+    match lines with
+    | [] => None
+    | l :: ls =>
+      match last_def n ls with
+      | Some v => Some v
+      | None => match pl l with
+                | Ok c => if is_py c && text_eqb n (c_name c) then Some (base, c_loc c) else None
+                | Raise _ => None
+                end
+      end
+    end.
+
+  Lemma lookup_fold n lines : forall d,
+    lookup n (fold_left line_step lines d)
+    = match last_def n lines with Some v => Some v | None => lookup n d end.
+  Proof.
+    induction lines as [|l ls IH]; intros d; cbn [fold_left last_def]; [reflexivity|].
+    rewrite IH. destruct (last_def n ls); [reflexivity|].
+    unfold line_step. destruct (pl l) as [c|e]; [|reflexivity].
+    destruct (is_py c); cbn [andb]; [|reflexivity].
+    destruct (text_eqb n (c_name c)) eqn:E.
+    - apply text_eqb_eq in E. subst n. apply lookup_set_same.
+    - apply text_eqb_neq in E. apply lookup_set_other, E.
+  Qed.
+
+  Lemma last_def_none n lines :
+    (forall l c, In l lines -> pl l = Ok c -> is_py c = true -> c_name c <> n) -> last_def n lines = None.
+  Proof.
+    induction lines as [|l ls IH]; intros H; cbn [last_def]; [reflexivity|].
+    rewrite IH by (intros l' c' Hin; apply H; right; exact Hin).
+    destruct (pl l) as [c|e] eqn:E; [|reflexivity].
+    destruct (is_py c) eqn:Ep; cbn [andb]; [|reflexivity].
+    destruct (text_eqb n (c_name c)) eqn:En; [|reflexivity].
+    apply text_eqb_eq in En. exfalso. apply (H l c); [left; reflexivity|exact E|exact Ep|congruence].
+  Qed.
+
+  Lemma last_def_app n pre post :
+    last_def n (pre ++ post) = match last_def n post with Some v => Some v | None => last_def n pre end.
+  Proof.
+    induction pre as [|l ls IH]; cbn [app last_def]; [destruct (last_def n post); reflexivity|].
+    rewrite IH. destruct (last_def n post); reflexivity.
+  Qed.
+
+  Lemma last_def_some n lines v :
+    last_def n lines = Some v ->
+    exists l c, In l lines /\ pl l = Ok c /\ is_py c = true /\ c_name c = n /\ v = (base, c_loc c).
+  Proof.
+    induction lines as [|l ls IH]; cbn [last_def]; [discriminate|].
+    destruct (last_def n ls) as [v'|].
+    - intros H. inversion H; subst v'. destruct (IH eq_refl) as (l' & c & Hin & Hrest).
+      exists l', c. split; [right; exact Hin|exact Hrest].
+    - destruct (pl l) as [c|e] eqn:E; [|discriminate].
+      destruct (is_py c) eqn:Ep; cbn [andb]; [|discriminate].
+      destruct (text_eqb n (c_name c)) eqn:En; [|discriminate].
+      apply text_eqb_eq in En. intros H. inversion H; subst v.
+      exists l, c. split; [left; reflexivity|]. split; [exact E|]. split; [exact Ep|]. split; [congruence|reflexivity].
+  Qed.
+
+  (* C17_bad_parts_skipped, on a list of lines *)
+  Lemma bad_parts_skipped lines :
+    exists links,
+      parse_lines pl base lines [] [] = Ok (links, flat_map line_reports lines) /\
+      (forall pre l post c,
+          lines = pre ++ l :: post -> pl l = Ok c -> is_py c = true ->
+          (forall l' c', In l' post -> pl l' = Ok c' -> is_py c' = true -> c_name c' <> c_name c) ->
+          lookup (c_name c) links = Some (base, c_loc c)) /\
+      (forall n v, lookup n links = Some v ->
+                   exists l c, In l lines /\ pl l = Ok c /\ is_py c = true /\ c_name c = n /\ v = (base, c_loc c)).
+  Proof.
+    exists (fold_left line_step lines []). split; [rewrite parse_lines_eq; reflexivity|]. split.
+    - intros pre l post c -> Hl Hpy Hlater. rewrite lookup_fold.
+      change (pre ++ l :: post) with (pre ++ [l] ++ post). rewrite app_assoc, last_def_app.
+      rewrite (last_def_none (c_name c) post Hlater). rewrite last_def_app. cbn [last_def].
+      rewrite Hl, Hpy, text_eqb_refl. reflexivity.
+    - intros n v. rewrite lookup_fold. destruct (last_def n lines) as [v'|] eqn:E; [|discriminate].
+      intros H. inversion H; subst v'. apply last_def_some, E.
+  Qed.
+
+  Lemma parse_inventory_eq payload :
+    parse_inventory pl base payload
+    = Ok (fold_left line_step (splitlines payload) [], flat_map line_reports (splitlines payload)).
+  Proof. unfold parse_inventory. apply parse_lines_eq. Qed.
+End InventoryProofs.
+
+(* ================================================================== _getPayload / update *)
+Lemma split1_some c t a b : split1 c t = Some (a, b) -> t = a ++ c :: b /\ ~ In c a.
+Proof.
+  revert a b. induction t as [|x r IH]; intros a b; cbn [split1]; [discriminate|].
+  destruct (N.eqb x c) eqn:E.
+  - apply N.eqb_eq in E. subst x. intros H. inversion H; subst. split; [reflexivity|intros []].
+  - destruct (split1 c r) as [[a' b']|] eqn:Es; [|discriminate]. intros H. inversion H; subst.
+    destruct (IH a' b eq_refl) as [-> Hn]. split; [reflexivity|].
+    intros [Hx|Hin]; [subst x; rewrite N.eqb_refl in E; discriminate|exact (Hn Hin)].
+Qed.
+
+Lemma split1_none c t : split1 c t = None -> ~ In c t.
+Proof.
+  induction t as [|x r IH]; cbn [split1]; [intros _ []|].
+  destruct (N.eqb x c) eqn:E; [discriminate|]. destruct (split1 c r) as [[a b]|]; [discriminate|].
+  intros _ [Hx|Hin]; [subst x; rewrite N.eqb_refl in E; discriminate|exact (IH eq_refl Hin)].
+Qed.
+
+Lemma split1_first c a b : ~ In c a -> split1 c (a ++ c :: b) = Some (a, b).
+Proof.
+  induction a as [|x a IH]; intros H; cbn [app split1].
+  - rewrite N.eqb_refl. reflexivity.
+  - destruct (N.eqb x c) eqn:E; [apply N.eqb_eq in E; exfalso; apply H; left; exact E|].
+    rewrite IH; [reflexivity|]. intros Hin. apply H. right. exact Hin.
+Qed.
+
+Lemma split1_notin c t : ~ In c t -> split1 c t = None.
+Proof.
+  induction t as [|x r IH]; intros H; cbn [split1]; [reflexivity|].
+  destruct (N.eqb x c) eqn:E; [apply N.eqb_eq in E; exfalso; apply H; left; exact E|].
+  rewrite IH; [reflexivity|]. intros Hin. apply H. right. exact Hin.
+Qed.
+
+Lemma rsplit1_none c t : rsplit1 c t = None <-> ~ In c t.
+Proof.
+  induction t as [|x r IH]; cbn [rsplit1]; [split; [intros _ []|reflexivity]|].
+  destruct (rsplit1 c r) as [[a b]|].
+  - split; [discriminate|]. intros H. exfalso. apply H. right.
+    destruct (in_dec N.eq_dec c r) as [Hin|Hn]; [exact Hin|]. apply IH in Hn. discriminate.
+  - destruct (N.eqb x c) eqn:E.
+    + split; [discriminate|]. intros H. exfalso. apply H. left. apply N.eqb_eq, E.
+    + split; [|reflexivity]. intros _ [Hx|Hin]; [subst x; rewrite N.eqb_refl in E; discriminate|].
+      apply (proj1 IH eq_refl), Hin.
+Qed.
+
+Lemma rsplit1_some c t a b : rsplit1 c t = Some (a, b) -> t = a ++ c :: b /\ ~ In c b.
+Proof.
+  revert a b. induction t as [|x r IH]; intros a b; cbn [rsplit1]; [discriminate|].
+  destruct (rsplit1 c r) as [[a' b']|] eqn:Es.
+  - intros H. inversion H; subst. destruct (IH a' b eq_refl) as [-> Hn]. split; [reflexivity|exact Hn].
+  - destruct (N.eqb x c) eqn:E; [|discriminate]. apply N.eqb_eq in E. subst x.
+    intros H. inversion H; subst. split; [reflexivity|]. apply rsplit1_none, Es.
+Qed.
+
+Lemma rsplit1_last c base rest : ~ In c rest -> rsplit1 c (base ++ c :: rest) = Some (base, rest).
+Proof.
+  intros Hn. induction base as [|x b IH]; cbn [app rsplit1].
+  - apply rsplit1_none in Hn. rewrite Hn, N.eqb_refl. reflexivity.
+  - rewrite IH. reflexivity.
+Qed.
+
+(* the fuelled loop computes the specified stripping and never runs out of fuel *)
+Lemma strip_comments_stripped fuel : forall data,
+  (length data < fuel)%nat -> exists p, strip_comments fuel data = Ok p /\ stripped data p.
+Proof.
+  induction fuel as [|f IH]; intros data Hf; [lia|]. cbn [strip_comments].
+  destruct (split1 10 data) as [[first rest]|] eqn:Es.
+  - destruct (split1_some _ _ _ _ Es) as [-> Hn].
+    destruct (starts_with_char 35 first) eqn:Eh.
+    + destruct first as [|x first]; [discriminate|]. cbn [starts_with_char] in Eh. apply N.eqb_eq in Eh. subst x.
+      destruct (IH rest) as (p & Hp & Hs).
+      { rewrite app_length in Hf. cbn [length] in Hf. lia. }
+      exists p. split; [exact Hp|]. apply stripped_comment; [|exact Hs].
+      intros Hin. apply Hn. right. exact Hin.
+    + eexists. split; [reflexivity|]. apply stripped_not_comment.
+      destruct first; [reflexivity|exact Eh].
+  - eexists. split; [reflexivity|]. apply stripped_no_newline, split1_none, Es.
+Qed.
+
+Lemma stripped_strip_comments data p : stripped data p -> forall fuel, (length data < fuel)%nat -> strip_comments fuel data = Ok p.
+Proof.
+  induction 1 as [d Hn|d Hh|l rest p Hn Hs IH]; intros fuel Hf; (destruct fuel as [|f]; [lia|]); cbn [strip_comments].
+  - rewrite split1_notin by exact Hn. reflexivity.
+  - destruct (split1 10 d) as [[first rest]|] eqn:Es; [|reflexivity].
+    destruct (split1_some _ _ _ _ Es) as [-> _].
+    destruct first; [reflexivity|]. cbn [app starts_with_char] in *. rewrite Hh. reflexivity.
+  - rewrite split1_first.
+    + cbn [starts_with_char]. rewrite N.eqb_refl. apply IH. rewrite app_length in Hf. cbn [length] in Hf. lia.
+    + intros [H|H]; [discriminate|exact (Hn H)].
+Qed.
+
+Section UpdateProofs.
+  Variable pl : text -> outcome columns.
+  Hypothesis pl_total : total_line pl.
+  Variable decompress : list N -> option (list N).
+  Variable decode_utf8 : list N -> option text.
+
+  Lemma get_payload_cases base data :
+    exists p, stripped data p /\
+      ((decompress p = None /\ get_payload decompress decode_utf8 base data = Ok ([], [RUncompress base])) \/
+       (exists raw, decompress p = Some raw /\ decode_utf8 raw = None /\
+                    get_payload decompress decode_utf8 base data = Ok ([], [RDecode base])) \/
+       (exists raw t, decompress p = Some raw /\ decode_utf8 raw = Some t /\
+                      get_payload decompress decode_utf8 base data = Ok (t, []))).
+  Proof.
+    unfold get_payload.
+    assert (Hlt : (length data < strip_fuel data)%nat) by (unfold strip_fuel; lia).
+    destruct (strip_comments_stripped _ _ Hlt) as (p & Hp & Hs). rewrite Hp.
+    exists p. split; [exact Hs|].
+    destruct (decompress p) as [raw|]; [|left; split; reflexivity]. right.
+    destruct (decode_utf8 raw) as [t|] eqn:Eu.
+    - right. exists raw, t. rewrite Eu. repeat split; reflexivity.
+    - left. exists raw. rewrite Eu. repeat split; reflexivity.
+  Qed.
+
+  (* C17_update_total: for every byte string (and every URL, every behaviour of zlib and of the codec) update returns *)
+  Lemma update_total links url data :
+    exists links' reps, update pl decompress decode_utf8 links url data = Ok (links', reps).
+  Proof.
+    unfold update. destruct (rsplit1 47 url) as [[base rest]|]; [|eauto].
+    destruct data as [[|b d]|]; [eauto| |eauto].
+    destruct (get_payload_cases base (b :: d)) as (p & _ & [[_ ->]|[(raw & _ & _ & ->)|(raw & t & _ & _ & ->)]]);
+      rewrite parse_inventory_eq by exact pl_total; eauto.
+  Qed.
+
+  (* C17_payload_stages *)
+  Lemma stage_no_base links url data :
+    ~ In 47 url -> update pl decompress decode_utf8 links url data = Ok (links, [RNoBase url]).
+  Proof. intros H. unfold update. apply rsplit1_none in H. rewrite H. reflexivity. Qed.
+
+  Lemma stage_no_data links url data :
+    In 47 url -> data = None \/ data = Some [] ->
+    update pl decompress decode_utf8 links url data = Ok (links, [RNoData url]).
+  Proof.
+    intros Hin Hd. unfold update. destruct (rsplit1 47 url) as [[base rest]|] eqn:E.
+    - destruct Hd as [-> | ->]; reflexivity.
+    - apply rsplit1_none in E. contradiction.
+  Qed.
+
+  Lemma stage_uncompress links base rest d p :
+    ~ In 47 rest -> d <> [] -> stripped d p -> decompress p = None ->
+    update pl decompress decode_utf8 links (base ++ 47 :: rest) (Some d) = Ok (links, [RUncompress base]).
+  Proof.
+    intros Hrest Hd Hs Hz. unfold update.
+    rewrite rsplit1_last by exact Hrest. destruct d as [|x d]; [contradiction|].
+    unfold get_payload. rewrite (stripped_strip_comments _ _ Hs) by (unfold strip_fuel; lia). rewrite Hz.
+    rewrite parse_inventory_eq by exact pl_total. reflexivity.
+  Qed.
+
+  Lemma stage_decode links base rest d p raw :
+    ~ In 47 rest -> d <> [] -> stripped d p -> decompress p = Some raw -> decode_utf8 raw = None ->
+    update pl decompress decode_utf8 links (base ++ 47 :: rest) (Some d) = Ok (links, [RDecode base]).
+  Proof.
+    intros Hrest Hd Hs Hz Hu. unfold update.
+    rewrite rsplit1_last by exact Hrest. destruct d as [|x d]; [contradiction|].
+    unfold get_payload. rewrite (stripped_strip_comments _ _ Hs) by (unfold strip_fuel; lia). rewrite Hz, Hu.
+    rewrite parse_inventory_eq by exact pl_total. reflexivity.
+  Qed.
+End UpdateProofs.
+
+(* ================================================================== getLink *)
+Lemma ends_with_char_last c t : ends_with_char c (t ++ [c]) = true.
+Proof. unfold ends_with_char. rewrite rev_unit. apply N.eqb_refl. Qed.
+
+Lemma get_link_dollar links name base loc :
+  lookup name links = Some (base, loc ++ [36]) -> get_link links name = Some (base ++ [47] ++ loc ++ name).
+Proof.
+  intros H. unfold get_link. rewrite H. destruct (loc ++ [36]) eqn:E; [destruct loc; discriminate|].
+  cbn [is_empty]. rewrite <- E. rewrite ends_with_char_last, removelast_last. reflexivity.
+Qed.
+
+Lemma get_link_plain links name base rel :
+  lookup name links = Some (base, rel) -> rel <> [] -> ends_with_char 36 rel = false ->
+  get_link links name = Some (base ++ [47] ++ rel).
+Proof.
+  intros H Hne He. unfold get_link. rewrite H, He. destruct rel; [contradiction|]. reflexivity.
+Qed.
+
+Lemma get_link_none links name :
+  lookup name links = None \/ (exists base, lookup name links = Some (base, [])) -> get_link links name = None.
+Proof. intros [H|(b & H)]; unfold get_link; rewrite H; reflexivity. Qed.
+
+(* ================================================================== the writer *)
+Lemma obj_ind' (P : obj -> Prop) :
+  (forall n t h cs, Forall P cs -> P (Obj n t h cs)) -> forall o, P o.
+Proof.
+  intros H. fix IH 1. intros [n t h cs]. apply H.
+  induction cs as [|c cs IHcs]; constructor; [apply IH|exact IHcs].
+Qed.
+
+Lemma over_map {X Y} (h : X -> Y) (f : obj -> list Y) (g : obj -> list X) cs :
+  Forall (fun c => f c = map h (g c)) cs -> over f cs = map h (over g cs).
+Proof.
+  induction cs as [|c cs IH]; intros H; cbn [over]; [reflexivity|].
+  inversion H as [|? ? Hc Hcs]; subst. rewrite map_app, Hc. f_equal. apply IH, Hcs.
+Qed.
+
+Lemma in_over {X} (f : obj -> list X) cs x : In x (over f cs) <-> exists c, In c cs /\ In x (f c).
+Proof.
+  induction cs as [|c cs IH]; cbn [over].
+  - split; [intros []|intros (c & [] & _)].
+  - rewrite in_app_iff, IH. split.
+    + intros [H|(c' & Hc & Hx)]; [exists c; split; [left; reflexivity|exact H]|exists c'; split; [right; exact Hc|exact Hx]].
+    + intros (c' & [->|Hc] & Hx); [left; exact Hx|right; exists c'; split; assumption].
+Qed.
+
+Definition body_of (e : entry) : text := line_body (e_name e) (py_prefix ++ domain_name (e_tag e)) (e_url e).
+
+Lemma gen_obj_entries roots o : forall pf pvis,
+  gen_obj roots pf pvis o = map (fun e => body_of e ++ [10]) (entries_obj roots pf pvis o).
+Proof.
+  induction o as [n t h cs IH] using obj_ind'. intros pf pvis. cbn [gen_obj entries_obj].
+  destruct (negb h && pvis); [|reflexivity]. cbn [map]. f_equal.
+  apply over_map. eapply Forall_impl; [|exact IH]. intros c Hc. apply Hc.
+Qed.
+
+Lemma gen_lines_entries roots subjects :
+  gen_lines roots subjects = map (fun e => body_of e ++ [10]) (entries roots subjects).
+Proof.
+  unfold gen_lines, entries. apply over_map. apply Forall_forall. intros o _. apply gen_obj_entries.
+Qed.
+
+(* entries = the listed objects *)
+Lemma listed_not_hidden subjects pf o : listed subjects pf o -> o_hidden o = false.
+Proof. intros H. inversion H; assumption. Qed.
+
+Lemma entries_obj_head roots pf o : o_hidden o = false -> In (entry_of roots pf o) (entries_obj roots pf true o).
+Proof. destruct o as [n t h cs]. cbn [o_hidden]. intros ->. cbn [entries_obj negb andb]. left. reflexivity. Qed.
+
+Lemma entries_obj_member roots pf p c e :
+  o_hidden p = false -> In c (o_contents p) ->
+  In e (entries_obj roots (Some (full_name pf (o_name p))) true c) -> In e (entries_obj roots pf true p).
+Proof.
+  destruct p as [n t h cs]. cbn [o_hidden o_contents o_name]. intros -> Hc He.
+  cbn [entries_obj negb andb]. right. apply in_over. exists c. split; assumption.
+Qed.
+
+Lemma listed_incl roots subjects pf o :
+  listed subjects pf o -> incl (entries_obj roots pf true o) (entries roots subjects).
+Proof.
+  induction 1 as [o Hin Hh|pf p c Hp IH Hc Hh]; intros e He.
+  - apply in_over. exists o. split; assumption.
+  - apply IH. eapply entries_obj_member; [eapply listed_not_hidden; exact Hp|exact Hc|exact He].
+Qed.
+
+Lemma listed_in_entries roots subjects pf o :
+  listed subjects pf o -> In (entry_of roots pf o) (entries roots subjects).
+Proof.
+  intros H. apply (listed_incl roots _ _ _ H). apply entries_obj_head. eapply listed_not_hidden, H.
+Qed.
+
+Lemma entries_obj_listed roots subjects o : forall pf e,
+  listed subjects pf o -> In e (entries_obj roots pf true o) ->
+  exists pf' o', listed subjects pf' o' /\ e = entry_of roots pf' o'.
+Proof.
+  induction o as [n t h cs IH] using obj_ind'. intros pf e Hl He.
+  assert (Hh := listed_not_hidden _ _ _ Hl). cbn [o_hidden] in Hh. subst h.
+  cbn [entries_obj negb andb] in He. destruct He as [<-|He]; [eauto|].
+  apply in_over in He. destruct He as (c & Hc & He).
+  rewrite Forall_forall in IH.
+  destruct (o_hidden c) eqn:Ehc.
+  - destruct c as [n' t' h' cs']. cbn [o_hidden] in Ehc. subst h'. cbn [entries_obj negb andb] in He. contradiction.
+  - apply (IH c Hc _ e); [|exact He].
+    change (Some (full_name pf n)) with (Some (full_name pf (o_name (Obj n t false cs)))).
+    apply listed_member; [exact Hl|exact Hc|exact Ehc].
+Qed.
+
+Lemma entries_listed roots subjects e :
+  In e (entries roots subjects) <-> exists pf o, listed subjects pf o /\ e = entry_of roots pf o.
+Proof.
+  split.
+  - intros He. apply in_over in He. destruct He as (o & Ho & He).
+    destruct (o_hidden o) eqn:Eh.
+    + destruct o as [n t h cs]. cbn [o_hidden] in Eh. subst h. cbn [entries_obj negb andb] in He. contradiction.
+    + eapply entries_obj_listed; [apply listed_subject; eassumption|exact He].
+  - intros (pf & o & Hl & ->). apply listed_in_entries, Hl.
+Qed.
+
+(* ---- characters of a written URL *)
+Definition url_char (x : N) : Prop := 45 <= x <= 126 \/ x = 37 \/ x = 35.
+
+Lemma quote_safe_range c : quote_safe c = true -> 45 <= c <= 126.
+Proof.
+  unfold quote_safe, is_alnum. rewrite !orb_true_iff, !andb_true_iff, !N.leb_le, !N.eqb_eq. lia.
+Qed.
+
+Lemma hex_digit_range n : n < 16 -> 48 <= hex_digit n <= 70.
+Proof. intros H. unfold hex_digit. destruct (N.ltb n 10) eqn:E; [apply N.ltb_lt in E|apply N.ltb_ge in E]; lia. Qed.
+
+Lemma pct_chars b x : In x (pct b) -> url_char x.
+Proof.
+  unfold pct. intros [<-|[<-|[<-|[]]]]; [right; left; reflexivity| |].
+  - left. assert (H := hex_digit_range ((b / 16) mod 16) ltac:(apply N.mod_lt; discriminate)). lia.
+  - left. assert (H := hex_digit_range (b mod 16) ltac:(apply N.mod_lt; discriminate)). lia.
+Qed.
+
+Lemma quote_chars t : Forall url_char (quote t).
+Proof.
+  apply Forall_forall. intros x Hx. unfold quote in Hx. apply in_flat_map in Hx. destruct Hx as (c & _ & Hx).
+  unfold quote_char in Hx. destruct (quote_safe c) eqn:E.
+  - destruct Hx as [<-|[]]. left. apply quote_safe_range, E.
+  - apply in_flat_map in Hx. destruct Hx as (b & _ & Hx). eapply pct_chars, Hx.
+Qed.
+
+Lemma url_char_by_compute t : forallb (fun x => N.leb 45 x && N.leb x 126) t = true -> Forall url_char t.
+Proof.
+  intros H. apply Forall_forall. intros x Hx. rewrite forallb_forall in H. specialize (H x Hx).
+  apply andb_true_iff in H. rewrite !N.leb_le in H. left. lia.
+Qed.
+
+Lemma page_url_chars roots pf : Forall url_char (page_url roots pf).
+Proof.
+  unfold page_url. destruct (is_only_root roots pf).
+  - apply url_char_by_compute. reflexivity.
+  - apply Forall_app. split; [apply quote_chars|apply url_char_by_compute; reflexivity].
+Qed.
+
+Lemma url_of_chars roots pf name tag : Forall url_char (url_of roots pf name tag).
+Proof.
+  unfold url_of. destruct pf as [p|]; [|apply page_url_chars].
+  destruct (own_page tag); [apply page_url_chars|].
+  apply Forall_app. split; [apply page_url_chars|]. apply Forall_app. split; [|apply quote_chars].
+  constructor; [right; right; reflexivity|constructor].
+Qed.
+
+Lemma url_char_facts x : url_char x -> x <> 32 /\ x <> 36 /\ is_linebreak x = false.
+Proof.
+  intros H. split; [unfold url_char in H; lia|]. split; [unfold url_char in H; lia|].
+  unfold is_linebreak. rewrite !orb_false_iff, !N.eqb_neq. unfold url_char in H. lia.
+Qed.
+
+Lemma url_of_nonempty roots pf name tag : url_of roots pf name tag <> [].
+Proof.
+  assert (Hp : forall f, page_url roots f <> []).
+  { intros f. unfold page_url. destruct (is_only_root roots f); [discriminate|].
+    intros E. apply app_eq_nil in E. destruct E as [_ E]. discriminate. }
+  unfold url_of. destruct pf as [p|]; [|apply Hp]. destruct (own_page tag); [apply Hp|].
+  intros E. apply app_eq_nil in E. destruct E as [E _]. exact (Hp _ E).
+Qed.
+
+Lemma no_break_by_compute t : forallb (fun c => negb (is_linebreak c)) t = true -> no_break t.
+Proof.
+  intros H. apply Forall_forall. intros x Hx. rewrite forallb_forall in H. specialize (H x Hx).
+  apply negb_true_iff, H.
+Qed.
+
+Lemma notin_by_compute c t : forallb (fun x => negb (N.eqb x c)) t = true -> ~ In c t.
+Proof.
+  intros H Hin. rewrite forallb_forall in H. specialize (H c Hin). rewrite N.eqb_refl in H. discriminate.
+Qed.
+
+Lemma py_type_facts tag :
+  no_break (py_prefix ++ domain_name tag) /\ ~ In SP (py_prefix ++ domain_name tag) /\
+  starts_with py_prefix (py_prefix ++ domain_name tag) = true.
+Proof.
+  unfold domain_name.
+  destruct (N.eqb tag 0); [|destruct (N.eqb tag 1); [|destruct (N.eqb tag 2); [|destruct (N.eqb tag 3); [|destruct (N.eqb tag 4)]]]];
+    (split; [apply no_break_by_compute; reflexivity|split; [apply notin_by_compute; reflexivity|reflexivity]]).
+Qed.
+
+(* the guard of the line round trip: every space separated piece of the name from index 2 on is rejected by int() *)
+Definition int_guard (int_of : text -> option Z) (name : text) : Prop :=
+  forall j q, (2 <= j)%nat -> nth_error (split_on SP name) j = Some q -> int_of q = None.
+
+Definition name_ok (name : text) : Prop := no_break name /\ int_guard py_int name.
+
+Lemma entries_wf roots subjects e :
+  In e (entries roots subjects) -> Forall url_char (e_url e) /\ e_url e <> [].
+Proof.
+  intros He. apply entries_listed in He. destruct He as (pf & o & _ & ->). cbn [entry_of e_url].
+  split; [apply url_of_chars|apply url_of_nonempty].
+Qed.
+
+Lemma url_chars_no_break t : Forall url_char t -> no_break t.
+Proof. intros H. eapply Forall_impl; [|exact H]. intros x Hx. apply url_char_facts, Hx. Qed.
+
+Lemma url_chars_no_space t : Forall url_char t -> ~ In SP t.
+Proof.
+  intros H Hin. rewrite Forall_forall in H. destruct (url_char_facts _ (H _ Hin)) as (H32 & _). apply H32. reflexivity.
+Qed.
+
+Lemma url_chars_no_dollar t : Forall url_char t -> ends_with_char 36 t = false.
+Proof.
+  intros H. unfold ends_with_char. destruct (rev t) as [|x r] eqn:E; [reflexivity|].
+  assert (Hin : In x t) by (apply in_rev; rewrite E; left; reflexivity).
+  rewrite Forall_forall in H. destruct (url_char_facts _ (H _ Hin)) as (_ & H36 & _). apply N.eqb_neq, H36.
+Qed.
+
+Lemma body_no_break e : no_break (e_name e) -> Forall url_char (e_url e) -> no_break (body_of e).
+Proof.
+  intros Hn Hu. unfold body_of, line_body. destruct (py_type_facts (e_tag e)) as (Ht & _ & _).
+  apply url_chars_no_break in Hu.
+  repeat (apply Forall_app; split); try assumption; apply no_break_by_compute; reflexivity.
+Qed.
+
+Lemma body_parses e :
+  int_guard py_int (e_name e) -> Forall url_char (e_url e) ->
+  parse_line py_int (body_of e)
+  = Ok (Cols (e_name e) (py_prefix ++ domain_name (e_tag e)) (-1) (e_url e) dash).
+Proof.
+  intros Hg Hu. destruct (py_type_facts (e_tag e)) as (_ & Hsp & _).
+  apply line_roundtrip; [reflexivity|exact Hsp|apply url_chars_no_space, Hu|apply py_int_py_type|exact Hg].
+Qed.
+
+(* ---- utf-8 *)
+Lemma utf8_char_ascii c x : x < 128 -> In x (utf8_char c) -> x = c.
+Proof.
+  intros Hx. unfold utf8_char.
+  destruct (N.ltb c 128); [intros [<-|[]]; reflexivity|].
+  destruct (N.ltb c 2048); [intros [<-|[<-|[]]]; lia|].
+  destruct (N.ltb c 65536); [intros [<-|[<-|[<-|[]]]]; lia|intros [<-|[<-|[<-|[<-|[]]]]]; lia].
+Qed.
+
+Lemma encode_utf8_ascii x t : x < 128 -> In x (encode_utf8 t) -> In x t.
+Proof.
+  intros Hx Hin. unfold encode_utf8 in Hin. apply in_flat_map in Hin. destruct Hin as (c & Hc & Hin).
+  apply (utf8_char_ascii c x Hx) in Hin. subst x. exact Hc.
+Qed.
+
+Lemma encode_utf8_app a b : encode_utf8 (a ++ b) = encode_utf8 a ++ encode_utf8 b.
+Proof. apply flat_map_app. Qed.
+
+Lemma encode_utf8_concat ls : concat (map encode_utf8 ls) = encode_utf8 (concat ls).
+Proof.
+  induction ls as [|l ls IH]; [reflexivity|]. cbn [map concat]. rewrite encode_utf8_app, IH. reflexivity.
+Qed.
+
+(* ---- the header is four comment lines *)
+Lemma header_stripped project version z :
+  ~ In 10 project -> ~ In 10 version -> starts_with_char 35 z = false ->
+  stripped (encode_utf8 (header project version) ++ z) z.
+Proof.
+  intros Hp Hv Hz. unfold header.
+  rewrite !encode_utf8_app.
+  match goal with
+  | |- stripped ((encode_utf8 ?l1 ++ encode_utf8 ?l2 ++ ?ep ++ encode_utf8 [10] ++ encode_utf8 ?l3 ++ ?ev ++
+                  encode_utf8 [10] ++ encode_utf8 ?l4) ++ z) z =>
+    change (encode_utf8 l1) with l1; change (encode_utf8 l2) with l2; change (encode_utf8 l3) with l3;
+    change (encode_utf8 l4) with l4; change (encode_utf8 [10]) with [10]
+  end.
+  assert (Hep : ~ In 10 (encode_utf8 project)) by (intros H; apply Hp, (encode_utf8_ascii 10); [reflexivity|exact H]).
+  assert (Hev : ~ In 10 (encode_utf8 version)) by (intros H; apply Hv, (encode_utf8_ascii 10); [reflexivity|exact H]).
+  set (ep := encode_utf8 project) in *. set (ev := encode_utf8 version) in *.
+  (* line 1 *)
+  cbn [app]. rewrite <- !app_assoc. cbn [app].
+  match goal with |- stripped (35 :: ?rest) z => idtac end.
+  apply (stripped_comment
+           [32; 83; 112; 104; 105; 110; 120; 32; 105; 110; 118; 101; 110; 116; 111; 114; 121; 32; 118; 101; 114; 115;
+            105; 111; 110; 32; 50]); [apply notin_by_compute; reflexivity|].
+  (* line 2 *)
+  apply (stripped_comment ([32; 80; 114; 111; 106; 101; 99; 116; 58; 32] ++ ep)
+           ((35 :: [32; 86; 101; 114; 115; 105; 111; 110; 58; 32] ++ ev) ++ 10 :: _)).
+  { intros H. apply in_app_or in H. destruct H as [H|H]; [revert H; apply notin_by_compute; reflexivity|exact (Hep H)]. }
+  (* line 3 *)
+  apply (stripped_comment ([32; 86; 101; 114; 115; 105; 111; 110; 58; 32] ++ ev)).
+  { intros H. apply in_app_or in H. destruct H as [H|H]; [revert H; apply notin_by_compute; reflexivity|exact (Hev H)]. }
+  (* line 4 *)
+  apply (stripped_comment
+           [32; 84; 104; 101; 32; 114; 101; 115; 116; 32; 111; 102; 32; 116; 104; 105; 115; 32; 102; 105; 108; 101; 32;
+            105; 115; 32; 99; 111; 109; 112; 114; 101; 115; 115; 101; 100; 32; 119; 105; 116; 104; 32; 122; 108; 105; 98;
+            46]); [apply notin_by_compute; reflexivity|].
+  apply stripped_not_comment, Hz.
+Qed.
